@@ -292,6 +292,17 @@ def r4(ctx):
             probs.append("replacement is not '/'")
         if not any(c.get("static", "").endswith("MULTISLASH") or "MULTISLASH" in c.get("repr", "") for c in patl.consts):
             probs.append("pattern is not MULTISLASH")
+        # what MULTISLASH matches: exactly the runs of two or more '/' (alphabet {'/'}, every length >= 2, unanchored).
+        # A second alternative (`|/(?:\\./)+`) rewrites other text in the same single pass, where the rules do not compose
+        import regexhelp
+        lits = [x for x in regexhelp.regex_literals(ctx.facts) if x[0].endswith("MULTISLASH")]
+        if len(lits) != 1 or lits[0][1] is None:
+            probs.append("the MULTISLASH pattern literal was not found")
+        else:
+            rf = regexhelp.facts_for_patterns([lits[0][1]])[0]
+            cap = rf.get("len_cap", 0)
+            if not rf.get("parse_ok") or rf.get("alphabet") != "/" or rf.get("atoms", 99) > 16 or rf.get("lengths") != list(range(2, cap + 1)) or rf.get("anchored_start") or rf.get("anchored_end"):
+                probs.append("MULTISLASH (`%s`) does not match exactly the runs of two or more slashes (alphabet %r, lengths %s..)" % (lits[0][1], rf.get("alphabet"), (rf.get("lengths") or [])[:4]))
         if probs:
             yield VIOL("C09-R4", "canonicalize_uri_path/collapse", "slash collapsing: " + "; ".join(probs), where=b.span_of_block(rb))
         else:
@@ -382,9 +393,27 @@ def r5(ctx):
         raise AnchorMissing("Ok results of canonicalize_uri_path")
     bad = []
     verbatim = []
+    def special_at(blk):
+        for a, sx, c, truth in guard_conditions(b, blk):
+            if c["kind"] != "call" or truth is not True:
+                continue
+            t = c["term"]
+            if re.search(r"str>::is_empty$", c["callee"]) and inp in b.slice_op(t["args"][0]).locals:
+                return True
+            if re.search(r"PartialEq::eq$", c["callee"]):
+                sa, sb = b.slice_op(t["args"][0]), b.slice_op(t["args"][1])
+                if ("/" in sa.const_values() + sb.const_values() or "" in sa.const_values() + sb.const_values()) and inp in (sa.locals | sb.locals):
+                    return True
+        return False
+
     for ob, i, s in oks:
         absolute = special = False
         for a, sx, c, truth in guard_conditions(b, ob):
+            if c["kind"] == "local" and truth is True and not c.get("neg"):
+                # `matches!(uri_path, "" | "/")`: a flag set to true in the arms of the pattern test
+                tdefs = [d for d in b.defs().get(c["local"], []) if d["kind"] == "assign" and d["stmt"]["rv"]["k"] == "use" and const_value(op_const(d["stmt"]["rv"]["op"]) or {}) in (1, True)]
+                if tdefs and all(special_at(d["block"]) for d in tdefs):
+                    special = True
             if c["kind"] != "call":
                 continue
             t = c["term"]
@@ -394,8 +423,8 @@ def r5(ctx):
                 special = True
             if re.search(r"PartialEq::eq$", c["callee"]) and truth is True:
                 sa, sb = b.slice_op(t["args"][0]), b.slice_op(t["args"][1])
-                if "/" in sa.const_values() + sb.const_values() and inp in (sa.locals | sb.locals):
-                    special = True
+                if ("/" in sa.const_values() + sb.const_values() or "" in sa.const_values() + sb.const_values()) and inp in (sa.locals | sb.locals):
+                    special = True  # `uri_path == "/"`, or the `""` arm of `matches!(uri_path, "" | "/")`
         if not (absolute or special):
             bad.append(ob)
         elif not special:
@@ -512,7 +541,7 @@ def r7(ctx):
             continue
         if re.search(r"PartialEq.*::(eq|ne)$", cal):
             cv = [v for a in args for v in c.slice_op(a).const_values()]
-            if cv == ["/"]:
+            if cv in (["/"], [""]):
                 continue
         if re.search(r"Deref::deref$|AsRef::as_ref$|Borrow::borrow$|str>::as_bytes$|fmt::|trace|log::", cal):
             continue
@@ -547,10 +576,12 @@ def preset_results(ctx, rule):
         got = {}
         for fname, o in zip(rv["fields"], rv["ops"]):
             c = op_const(o)
+            od = b.origin_def(o)
+            if c is None and od and od[0] == "const":
+                c = od[1]  # through the parameter of an inlined `with_flags(true, false)` helper
             if c is not None:
                 got[fname] = bool(const_value(c))
                 continue
-            od = b.origin_def(o)
             if od and od[0] == "def" and od[1]["kind"] == "call" and re.search(r"^<bool as std::default::Default>::default$", od[1]["term"].get("resolved_full", "")):
                 got[fname] = False
             else:
